@@ -1469,7 +1469,25 @@ impl Sess {
         }
         // the public API agrees with the dump (if nothing changed in between)
         if let (Ok(info), Ok(all)) = (self.n.shared.tx_pool_controller().get_tx_pool_info(), self.n.shared.tx_pool_controller().get_all_entry_info()) {
-            if all.pending.len() + all.proposed.len() == d.entries.len() && info.tip_hash == d.snapshot_tip {
+            // "nothing changed in between" is established, not assumed: a second dump taken after the
+            // API answers must show the same entries and totals as the one being judged
+            let unchanged = match self.n.shared.tx_pool_controller().verif_dump() {
+                Ok(d2) => {
+                    let ids = |x: &VerifPoolDump| -> BTreeSet<Vec<u8>> { x.entries.iter().map(|e| e.id.as_slice().to_vec()).collect() };
+                    let same = ids(&d2) == ids(d) && d2.total_tx_size == d.total_tx_size && d2.total_tx_cycles == d.total_tx_cycles && d2.snapshot_tip == d.snapshot_tip;
+                    if !same {
+                        r.c11.count("obs.pool_changed_between_the_dump_and_the_api_answers");
+                        if r.c11.counter("obs.pool_changed_between_the_dump_and_the_api_answers") <= 3 {
+                            let gone: Vec<String> = ids(d).difference(&ids(&d2)).map(|x| vbase::hex(&x[..6])).collect();
+                            let new: Vec<String> = ids(&d2).difference(&ids(d)).map(|x| vbase::hex(&x[..6])).collect();
+                            r.c11.note("pool_changed_while_compared_with_the_api", json!({"gone": gone, "new": new, "ops_tail": self.ops.iter().rev().take(6).rev().collect::<Vec<_>>()}));
+                        }
+                    }
+                    same
+                }
+                Err(_) => false,
+            };
+            if unchanged && all.pending.len() + all.proposed.len() == d.entries.len() && info.tip_hash == d.snapshot_tip {
                 r.c11.eval();
                 if info.pending_size != cnt("pending") + cnt("gap") || info.proposed_size != cnt("proposed") || info.total_tx_size != ts || info.total_tx_cycles != tc {
                     r.c11.violation("api.tx_pool_info_differs", format!("info pending={} proposed={} size={} cycles={} vs entries ({}, {}, {}, {})", info.pending_size, info.proposed_size, info.total_tx_size, info.total_tx_cycles, cnt("pending") + cnt("gap"), cnt("proposed"), ts, tc), w(json!({})));
